@@ -1244,7 +1244,7 @@ class Executor:
         if o.__class__.__name__ == "VCtx":
             from . import lib as _lib
 
-            if attr in _lib.child and attr != "formula":
+            if attr in _lib.child and attr not in ("formula", "condition"):
                 return _lib.VCtx(_lib.child[attr](o.t))
             if attr == "text":
                 return VStr(_lib.tok_text(o.t))
@@ -1521,6 +1521,14 @@ class Executor:
             return a.t == z3.EmptySet(a.et.sort())
         if isinstance(b, VSet) and isinstance(a, VEmptySet):
             return b.t == z3.EmptySet(b.et.sort())
+        # `x == None` / `x != None` (identity for None: objects of the modelled kinds do not override ==)
+        if isinstance(b, VNone):
+            if isinstance(a, VOptional):
+                return a.isnone
+            if isinstance(a, VNone):
+                return z3.BoolVal(True)
+            if isinstance(a, (VRef, VList, VDict, VCnd, VInt, VStr)) or a.__class__.__name__ == "VCtx":
+                return z3.BoolVal(False)
         raise Unsupported(f"== on {a.ty},{b.ty}")
 
     # ---- comprehensions ------------------------------------------------------------------
